@@ -148,6 +148,11 @@ def lineLen : List Char → Nat
   | [] => 0
   | c :: s => if c == '\n' then 0 else lineLen s + 1
 
+/-- length of the list without its trailing blanks and tabs -/
+def trimLen : List Char → Nat
+  | [] => 0
+  | c :: s => if trimLen s == 0 && (c == ' ' || c == '\t') then 0 else trimLen s + 1
+
 def stripQuotesL : List Char → List Char
   | '"' :: s => stripQuotesL s
   | s => s
@@ -249,8 +254,10 @@ def stepPragma (st : LexState) (tl : List Char) : List Ev × LexState :=
     let start := p1 + 6 + w2
     let ll := lineLen r3
     let t1 : Ev := .tok ⟨"PPPRAGMA", "pragma", st.lineno, st.col p1⟩ p1 st.file
-    let evs := if ll > 0 then
-        [t1, .tok ⟨"PPPRAGMASTR", String.ofList (r3.take ll), st.lineno, st.col start⟩ start st.file]
+    -- blanks at the end of the line are not part of the pragma's text
+    let tl' := trimLen (r3.take ll)
+    let evs := if tl' > 0 then
+        [t1, .tok ⟨"PPPRAGMASTR", String.ofList (r3.take tl'), st.lineno, st.col start⟩ start st.file]
       else [t1]
     match r3.drop ll with
     | [] => (evs, { st with rest := [], pos := start + ll })
